@@ -67,7 +67,7 @@ XMLENC_TB = ["modelled, not verified: AES/DES/RSA/GCM primitives (abstract Block
              "a ledger computed with the standard library independently of xmlenc), etree path lookup, base64",
              "hook: xmlenc/verif_hooks.go (toy block cipher for byte-exact CBC framing comparison)"]
 PROPS["C10"] = {
-    "modules": ["SamlVerif.Props.C10", "SamlVerif.Props.PureXmlenc"],
+    "modules": ["SamlVerif.Props.C10", "SamlVerif.Props.TransPad", "SamlVerif.Props.PureXmlenc"],
     "trusted_base": XMLENC_TB,
     "assumptions": ["block ciphers are length-preserving permutations of blocks; AEAD open(seal) = id (hypotheses Block.Good / Aead.Good)",
                     "interoperation is tested against a reference written from the W3C text with the standard library (testing, not proof); "
@@ -77,7 +77,7 @@ PROPS["C10"] = {
             "with stdlib-computed ledger; reference interop both directions; AES-GCM decrypt of reference values and the GCM encryption known finding; since the seeded-change rounds: decrypt hold-and-compare sequence across the CBC ciphers; reference-made GCM values at every length 0..65 with every kind of final byte at block-aligned lengths",
 }
 PROPS["C11"] = {
-    "modules": ["SamlVerif.Props.C11", "SamlVerif.Props.PureXmlenc"],
+    "modules": ["SamlVerif.Props.C11", "SamlVerif.Props.TransPad", "SamlVerif.Props.PureXmlenc"],
     "trusted_base": XMLENC_TB,
     "assumptions": ["AEAD authenticity (Aead.Good.auth) for the GCM tamper theorem"],
     "rule": "cipher-value lengths 0..4 blocks+1 exhaustively for the toy cipher and every registered algorithm; wrong key sizes and Go key types; "
@@ -265,10 +265,11 @@ TRANS_TECH = ("Lean 4 machine-checked proof: (a) theorems about definitions a tr
               "on every run, (b) theorems over a hand-written model; both tied to the code: (a) by regeneration, (b) by a differential correspondence check against the Go code")
 TRANS_TB = ("the Go->Lean translator (extract/trans.go: go/ast + go/types over a subset of Go; conventions in its header and in Model/GoSem.lean: errors as values, nil "
             "dereference = panic, receivers non-nil, time as integers, url.URL.String() opaque, untranslated callees as arbitrary functions in Env; arguments of fmt.Errorf are not evaluated)")
-for pid, fns in {"C01": "parseResponse / parseAssertion / parseEncryptedAssertion",
+for pid, fns in {"C01": "parseResponse / parseAssertion / parseEncryptedAssertion / parseArtifactResponse / the trust configuration of validateSignature",
                  "C02": "validateAssertion / parseResponse", "C03": "validateAssertion / validateAudienceRestriction / parseResponse",
                  "C04": "validateRequestID / validateAssertion / parseResponse", "C05": "IdpAuthnRequest.Validate (from the Destination check on) / getACSEndpoint / the endpoint selection of ServeIDPInitiated",
-                 "C18": "validateLogoutResponse",
-                 "C08": "IdpAuthnRequest.getSPEncryptionCert (the selection of the certificate string, up to its decoding)"}.items():
+                 "C18": "validateLogoutResponse / the trust configuration of validateSignature",
+                 "C08": "IdpAuthnRequest.getSPEncryptionCert (the selection of the certificate string, up to its decoding)",
+                 "C10": "xmlenc appendPadding / stripPadding", "C11": "xmlenc stripPadding"}.items():
     PROPS[pid]["technique"] = TRANS_TECH.format(fns=fns)
     PROPS[pid]["trusted_base"] = list(PROPS[pid].get("trusted_base", [])) + [TRANS_TB]
